@@ -25,6 +25,7 @@ def main : IO UInt32 := do
   | ["model", "typename"] => loopPure stdin stdout TypeName.driverStep
   | ["model", "codec"] => loopState stdin stdout Codec.driverStep {}
   | ["model", "cfg"] => loopState stdin stdout Cfg.driverStep {}
+  | ["model", "cfgkeyed"] => loopState stdin stdout Cfg.keyedDriverStep {}
   | ["model", "interval"] => loopState stdin stdout Interval.driverStep ⟨0, []⟩
   | ["model", "auxtable"] => loopState stdin stdout AuxTable.driverStep {}
   | ["model", "forest"] => loopState stdin stdout Forest.driverStep {}
